@@ -154,10 +154,72 @@ def yaml_world(g, tag):
     return w
 
 
+YDOC = ('user:\n  name: mock-user\n  info:\n    email: mock-email\n    tags:\n      - a\n      - b\n'
+        'date: 16/10/2022\nlist:\n  - x: 1\n    y: 2\n  - z\n')
+YVAL = {'user': {'name': 'mock-user', 'info': {'email': 'mock-email', 'tags': ['a', 'b']}}, 'date': '16/10/2022', 'list': [{'x': 1, 'y': 2}, 'z']}
+# several paths at different depths in ONE matcher, scalar and non-scalar placeholders
+YCASES = [
+    (['$.user.info.email', '$.date'], {'k': 1.0, 'l': [1.0, 2.0]}, [('user.info.email',), ('date',)]),
+    (['$.user.info.tags[1]', '$.list[0].x', '$.date'], ['p', 'q'], [('user.info.tags.1',), ('list.0.x',), ('date',)]),
+    (['$.date', '$.list[0].y', '$.user.name', '$.user.info.tags[0]'], '<Any value>', [('date',), ('list.0.y',), ('user.name',), ('user.info.tags.0',)]),
+    (['$.user.name', '$.user.info.email'], 'x', [('user.name',), ('user.info.email',)]),
+]
+
+
+def yflat(v, path=''):
+    out = []
+    if isinstance(v, dict):
+        out.append((path, '{'))
+        for k, x in v.items():
+            out += yflat(x, path + '/' + k)
+        out.append((path, '}'))
+    elif isinstance(v, list):
+        out.append((path, '['))
+        for i, x in enumerate(v):
+            out += yflat(x, path + '/' + str(i))
+        out.append((path, ']'))
+    elif isinstance(v, bool):
+        out.append((path, 'bool:' + str(v).lower()))
+    elif isinstance(v, float):
+        out.append((path, 'float64:%g' % v))
+    elif isinstance(v, int):
+        out.append((path, 'uint64:%d' % v))
+    else:
+        out.append((path, 'string:' + str(v)))
+    return out
+
+
+def yaml_fixed_worlds():
+    import copy
+    ws = []
+    for n, (paths, ph, targets) in enumerate(YCASES):
+        want = copy.deepcopy(YVAL)
+        for (t,) in targets:
+            set_path(want, '/' + t.replace('.', '/'), ph)
+        w = World('c15yf-%d' % n)
+
+        def oracle(line, raw, ww, want=want):
+            if not raw.startswith('mdoc '):
+                return 'the matcher did not return (%s)' % raw[:120]
+            f = dict(x.split(':', 1) for x in raw.split(' ')[1].split('|'))
+            if f['mut'] != '0':
+                return 'the bytes passed by the caller were modified'
+            if [e for e in f['errs'].split('+') if e]:
+                return 'unexpected matcher error'
+            fa = parse_flat(f['fa'])
+            if fa != yflat(want):
+                return 'YAML output is not the input with exactly the targeted values replaced: %r' % [(a, b) for a, b in zip(fa, yflat(want)) if a != b][:3]
+            return None
+        w.add('mdoc yaml %s %s' % (hx(YDOC), docs.any_matcher(paths, json.dumps(ph))), ('yaml-multi-path-replaced', oracle))
+        ws.append(w)
+    return ws
+
+
 def run(ctx):
     g = Gen(ctx.seed * 1000003 + 15)
     n = 400 if ctx.tier == 'quick' else 12000
     worlds = [make_world(g, 'c15-%d' % i) for i in range(n)]
     worlds += [yaml_world(g, 'c15y-%d' % i) for i in range(n // 4)]
+    worlds += yaml_fixed_worlds()
     run_suite(ctx, 'matchers.direct', worlds, known=known, use_model=False, chunk=1000)
     findings.report(ctx, 'C15')
